@@ -241,7 +241,7 @@ Walk:
 	paramKeyCnt = 0
 	hasSkpNds := len(*c.skipNds) > 0
 
-	if charsMatchedInNodeFound == len(current.key) {
+	if charsMatched == len(host) && charsMatchedInNodeFound == len(current.key) {
 		// linear search
 		idx = -1
 		for i := 0; i < len(current.childKeys); i++ {
